@@ -205,3 +205,105 @@ Theorem C18_replace_order_is_source : map fst PTR_REPLACES = [pat_t1; pat_t0].
 Proof. exact (@PointerSrc.replace_order_is_rfc). Qed.
 Print Assumptions C18_replace_order_is_source.
 
+From Coq Require Import String.
+From SJ Require Import Base.Bytes Base.FloatB Model.Value Model.Pointer.
+From SJ Require Import Model.NumAst Gen.NumTables Proofs.NumberAcc Proofs.NumAccSrc Model.MapM Proofs.Pointer.
+From SJ Require Import Model.VaccAst Gen.VaccTables.       (* last: `dv`, `run`, `eval` mean VaccAst's *)
+Require Import Lia ZifyBool ZifyNat ZifyN.
+From SJ Require Import Proofs.VaccSrc.
+Theorem C18_get_is_source : forall po v,
+  (forall i, src po Value_get (Some (IUsize i)) v = Done (opt_ref (get_usize v i)) v) /\
+  (forall k, src po Value_get (Some (IStr k)) v = Done (opt_ref (get_str v k)) v) /\
+  (forall i, src po Value_get_mut (Some (IUsize i)) v = Done (opt_mut (get_mut_usize v i)) v) /\
+  (forall k, src po Value_get_mut (Some (IStr k)) v = Done (opt_mut (get_mut_str v k)) v) /\
+  (forall i, src po (Index_for KUsize index_into) (Some (IUsize i)) v = Done (opt_ref (index_into_usize i v)) v) /\
+  (forall k, src po (Index_for KStr index_into) (Some (IStr k)) v = Done (opt_ref (index_into_str k v)) v) /\
+  (forall i, src po (Index_for KUsize index_into_mut) (Some (IUsize i)) v = Done (opt_mut (index_into_mut_usize i v)) v) /\
+  (forall k, src po (Index_for KStr index_into_mut) (Some (IStr k)) v = Done (opt_mut (index_into_mut_str k v)) v).
+Proof. exact (@VaccSrc.vacc_get_is_source). Qed.
+Print Assumptions C18_get_is_source.
+
+Theorem C18_index_is_source : forall po v,
+  (forall i, src po Ops_index (Some (IUsize i)) v = Done (DVal (index_usize v i)) v) /\
+  (forall k, src po Ops_index (Some (IStr k)) v = Done (DVal (index_str v k)) v).
+Proof. exact (@VaccSrc.vacc_index_is_source). Qed.
+Print Assumptions C18_index_is_source.
+
+Theorem C18_index_or_insert_is_source : forall po v,
+  (forall i, src po Ops_index_mut (Some (IUsize i)) v = of_ioi (index_or_insert_usize i v)) /\
+  (forall k, src po Ops_index_mut (Some (IStr k)) v = of_ioi (index_or_insert_str po k v)) /\
+  (forall i, src po (Index_for KUsize index_or_insert) (Some (IUsize i)) v = of_ioi (index_or_insert_usize i v)) /\
+  (forall k, src po (Index_for KStr index_or_insert) (Some (IStr k)) v = of_ioi (index_or_insert_str po k v)).
+Proof. exact (@VaccSrc.vacc_index_or_insert_is_source). Qed.
+Print Assumptions C18_index_or_insert_is_source.
+
+Theorem C18_take_is_source : forall po v, src po Value_take None v = Done (DVal (fst (take v))) (snd (take v)).
+Proof. exact (@VaccSrc.vacc_take_is_source). Qed.
+Print Assumptions C18_take_is_source.
+
+Theorem C18_accessors_are_source : forall po v,
+  src po Value_is_object None v = Done (ob (v_is_object v)) v /\
+  src po Value_as_object None v = Done (oo DMap (v_as_object v)) v /\
+  src po Value_as_object_mut None v = Done (oo DMap (v_as_object_mut v)) v /\
+  src po Value_is_array None v = Done (ob (v_is_array v)) v /\
+  src po Value_as_array None v = Done (oo DVec (v_as_array v)) v /\
+  src po Value_as_array_mut None v = Done (oo DVec (v_as_array_mut v)) v /\
+  src po Value_is_string None v = Done (ob (v_is_string v)) v /\
+  src po Value_as_str None v = Done (oo DStr (as_str v)) v /\
+  src po Value_is_number None v = Done (ob (v_is_number v)) v /\
+  src po Value_as_number None v = Done (oo DNum (v_as_number v)) v /\
+  src po Value_is_i64 None v = Done (ob (v_is_i64 v)) v /\
+  src po Value_is_u64 None v = Done (ob (v_is_u64 v)) v /\
+  src po Value_is_f64 None v = Done (ob (v_is_f64 v)) v /\
+  src po Value_as_i64 None v = Done (oo DI64 (as_i64 v)) v /\
+  src po Value_as_u64 None v = Done (oo DU64 (as_u64 v)) v /\
+  src po Value_as_f64 None v = Done (oo DF64 (as_f64 v)) v /\
+  src po Value_is_boolean None v = Done (ob (v_is_boolean v)) v /\
+  src po Value_as_bool None v = Done (oo DBool (as_bool v)) v /\
+  src po Value_is_null None v = Done (ob (v_is_null v)) v /\
+  src po Value_as_null None v = Done (oo (fun _ => DUnit) (v_as_null v)) v.
+Proof. exact (@VaccSrc.vacc_accessors_are_source). Qed.
+Print Assumptions C18_accessors_are_source.
+
+Theorem C18_is_as_partial : forall v,
+  (v_is_object v = true <-> v_as_object v <> None) /\
+  (v_is_object v = true <-> v_as_object_mut v <> None) /\
+  (v_is_array v = true <-> v_as_array v <> None) /\
+  (v_is_array v = true <-> v_as_array_mut v <> None) /\
+  (v_is_string v = true <-> as_str v <> None) /\
+  (v_is_number v = true <-> v_as_number v <> None) /\
+  (v_is_i64 v = true <-> as_i64 v <> None) /\
+  (v_is_u64 v = true <-> as_u64 v <> None) /\
+  (v_is_boolean v = true <-> as_bool v <> None) /\
+  (v_is_null v = true <-> v_as_null v <> None) /\
+  (* f64: one direction only; as_f64 is Some exactly on the numbers of the default representation *)
+  (v_is_f64 v = true -> as_f64 v <> None) /\
+  (as_f64 v <> None <-> exists n, v = VNum n /\ default_repr n).
+Proof. exact (@VaccSrc.vacc_is_as_partial). Qed.
+Print Assumptions C18_is_as_partial.
+
+Theorem C18_index_get : forall po v,
+  (forall i, index_usize v i = match get_usize v i with Some x => x | None => VNull end) /\
+  (forall k, index_str v k = match get_str v k with Some x => x | None => VNull end) /\
+  (forall ix g, src po Value_get (Some ix) v = Done (DOpt g) v ->
+                src po Ops_index (Some ix) v = Done (match g with Some d => d | None => DVal VNull end) v).
+Proof. exact (@VaccSrc.vacc_index_get). Qed.
+Print Assumptions C18_index_get.
+
+Theorem C18_number_methods_are_source : forall n, default_repr n ->
+  run_acc NUM_is_i64 n = RB (nm_is_i64 n) /\ run_acc NUM_is_u64 n = RB (nm_is_u64 n) /\ run_acc NUM_is_f64 n = RB (nm_is_f64 n) /\
+  run_acc NUM_as_i64 n = RO (option_map VI64 (num_as_i64 n)) /\
+  run_acc NUM_as_u64 n = RO (option_map VU64 (num_as_u64 n)) /\
+  run_acc NUM_as_f64 n = RO (option_map VF64 (num_as_f64 n)).
+Proof. exact (@VaccSrc.vacc_number_methods_are_source). Qed.
+Print Assumptions C18_number_methods_are_source.
+
+Theorem C18_map_prims_are_mapm : forall po k d m,
+  step_do po m (Get k) = (m, OOptV (assoc_get k m)) /\
+  match entry_or_insert po k d (VObj m) with
+  | Done (DMutChild i) (VObj m') => m' = fst (step_do po m (EntryOrInsert k d)) /\ assoc_pos k m' = Some i
+  | _ => False
+  end.
+Proof. exact (@VaccSrc.vacc_map_prims_are_mapm). Qed.
+Print Assumptions C18_map_prims_are_mapm.
+
